@@ -473,6 +473,21 @@ impl C14 {
                     if trace.len() < 40 {
                         trace.push(json!({"step": i, "connect": kinds_of(&ptxs), "height": sim.height(), "stream": stream, "probe": probe}));
                     }
+                    if sys.direct.is_none() && *stream && *chunk % 3 == 0 {
+                        // first an orphan twin of the block (it does not build on the tip) is
+                        // streamed: the tracker refuses it, and that must leave nothing behind in
+                        // the monitors (the real block follows, streamed as well)
+                        let mut orphan = sb.block.clone();
+                        orphan.header.prev_blockhash = { use lightning_signer::bitcoin::hashes::Hash; lightning_signer::bitcoin::BlockHash::from_byte_array([0x0f; 32]) };
+                        match tracker_add(&sys.w.node, &orphan, true, *chunk as usize) {
+                            Deliver::Refused(_) => st.class("refused_streamed_orphan_before_connect"),
+                            Deliver::Ok => panic!("step {}: tracker accepted an orphan block", i),
+                            Deliver::Panic(m) => {
+                                self.abort(ctx, st, case, &sim, false, true, &m, i, false)?;
+                                break 'steps;
+                            }
+                        }
+                    }
                     match sys.add(&sb, *stream, *chunk as usize) {
                         Deliver::Ok => {}
                         Deliver::Refused(e) => panic!("step {}: tracker refused a valid block: {}", i, e),
